@@ -124,6 +124,15 @@ def tfHandleKey (P : TfProg) (cl : List A → List (List A)) (tf : TF A) (ev : K
   | none => none
 
 open VaxisModel.Model.TextFieldCl (TF) in
+open VaxisModel.Model.TextField (KeyEv) in
+/-- `HandleEvent` for a key event when the application installed NO callbacks (`OnChange == nil`, `OnSubmit == nil`). -/
+def tfHandleKeyNoCb (P : TfProg) (cl : List A → List (List A)) (tf : TF A) (ev : KeyEv A) : Option (TF A × List (String × List A)) :=
+  let env : Env A := envOfTF tf ++ [("tf.OnChange", .cmd false), ("tf.OnSubmit", .cmd false), ("log", .opaque)] ++ keyEnv ev
+  match runFn (tfCx4 P cl) P.handleEvent env [.opaque, .opaque] with
+  | some (env', _) => (tfOfEnv env').map (·, logOf (getV env' "log"))
+  | none => none
+
+open VaxisModel.Model.TextFieldCl (TF) in
 /-- `Draw` through the translated body, reduced to what is observed of it: `none` = the interpreter has no
     meaning for a statement; `some none` = no cursor (a zero-sized surface); `some (some c)` = `s.Cursor.Col`
     (as an integer: Go's `uint16` arithmetic is this value modulo 65536).  `drawW` = the widths of the characters
